@@ -143,3 +143,64 @@ Example C05_general_premises_hold :
   | _ => False
   end.
 Proof. vm_compute. repeat split; reflexivity. Qed.
+
+
+(* ================================================================================================
+   JSON half of C05: the statements below are proved in JsonProofs.v / JsonProofs2.v / JsonLoadProofs.v / JsonLex.v and
+   collected in PropsJson.v (reading guide there); the sub-suite harness/props/C05json.py runs the JSON cases. *)
+From Cassis Require Import JsonDoc Json JsonProofs JsonProofs2 JsonLoadProofs JsonLex.
+From Cassis Require PropsJson.
+Open Scope list_scope.
+Open Scope Z_scope.
+
+Theorem C05_json_load_is_denotation : forall L s d cc,
+  doc_ok_json L s d = true -> denote_json L s d = Ok cc -> load_json L s d = Ok (with_initial_view cc).
+Proof. exact PropsJson.C05_json_load_is_denotation. Qed.
+Print Assumptions C05_json_load_is_denotation.
+
+Theorem C05_json_load_presentation_invariant : forall L s d d' cc,
+  schema_keys_okb s = true -> same_content d d' -> doc_ok_json L s d = true -> doc_ok_json L s d' = true ->
+  denote_json L s d = Ok cc -> load_json L s d' = load_json L s d.
+Proof. exact PropsJson.C05_json_load_presentation_invariant. Qed.
+Print Assumptions C05_json_load_presentation_invariant.
+
+Theorem C05_json_presentation_invariant : forall L s d d' c,
+  schema_keys_okb s = true -> same_content d d' -> denote_json L s d = Ok c -> denote_json L s d' = Ok c.
+Proof. exact PropsJson.C05_json_presentation_invariant. Qed.
+Print Assumptions C05_json_presentation_invariant.
+
+Theorem C05_json_presentations_compose : forall d1 d2 d3, same_content d1 d2 -> same_content d2 d3 -> same_content d1 d3.
+Proof. exact PropsJson.C05_json_presentations_compose. Qed.
+Print Assumptions C05_json_presentations_compose.
+
+Theorem C05_json_fs_order : forall d js js' es vs,
+  jget K_FS d = Some (JArr js) -> Permutation.Permutation js js' -> fs_entries d = Ok es -> doc_views d = Ok vs ->
+  NoDup (map fst es) -> NoDup (map fst vs) -> same_content d (set_member K_FS (JArr js') d).
+Proof. exact PropsJson.C05_json_fs_order. Qed.
+Print Assumptions C05_json_fs_order.
+
+Theorem C05_json_dict_form : forall d es vs,
+  jget K_FS d <> None -> fs_entries d = Ok es -> doc_views d = Ok vs -> NoDup (map fst es) -> NoDup (map fst vs) ->
+  same_content d (set_member K_FS (dict_form es) d).
+Proof. exact PropsJson.C05_json_dict_form. Qed.
+Print Assumptions C05_json_dict_form.
+
+Theorem C05_json_member_order : forall d d' es es' vs,
+  fs_entries d = Ok es -> fs_entries d' = Ok es' -> doc_views d = Ok vs -> doc_views d' = Ok vs ->
+  NoDup (map fst es) -> NoDup (map fst vs) ->
+  Forall2 (fun e e' => fst e = fst e' /\ NoDup (map fst (snd e)) /\ Permutation.Permutation (snd e) (snd e')) es es' ->
+  same_content d d'.
+Proof. exact PropsJson.C05_json_member_order. Qed.
+Print Assumptions C05_json_member_order.
+
+Theorem C05_json_document_member_order : forall l l' es vs,
+  NoDup (map fst l) -> Permutation.Permutation l l' -> fs_entries (JObj l) = Ok es -> doc_views (JObj l) = Ok vs ->
+  NoDup (map fst es) -> NoDup (map fst vs) -> same_content (JObj l) (JObj l').
+Proof. exact PropsJson.C05_json_document_member_order. Qed.
+Print Assumptions C05_json_document_member_order.
+
+Theorem C05_json_view_order : forall d vs vs' es,
+  fs_entries d = Ok es -> doc_views d = Ok vs -> Permutation.Permutation vs vs' -> NoDup (map fst es) -> NoDup (map fst vs) ->
+  same_content d (set_member K_VIEWS (JObj vs') d).
+Proof. exact PropsJson.C05_json_view_order. Qed.
+Print Assumptions C05_json_view_order.
